@@ -4,7 +4,7 @@
 set -u
 export GOFLAGS=-mod=mod GOPROXY=off GOSUMDB=off GOTOOLCHAIN=local
 export VERIF_REPO=${VERIF_REPO:-/repo}
-V=/verif
+V=$(cd "$(dirname "$0")" && pwd)
 O=${VERIF_OUTDIR:-$V/out}
 GO=/opt/veriftools/go1.26.8/bin/go
 mkdir -p $O/bin $O/replays $O/logs $V/out/gocache
